@@ -729,8 +729,15 @@ pub fn refresh(
     let new_rights = if keep_old_rights {
         refresh_coordinate_keys(msk, usk.secrets.clone())
     } else {
-        msk.get_latest_right_sk(usk.secrets.iter().map(|(r, _)| r).cloned())
-            .collect::<Result<RevisionVec<Right, RightSecretKey>, Error>>()?
+        // Rights that do not belong to the MSK anymore are removed from the USK.
+        msk.get_latest_right_sk(
+            usk.secrets
+                .iter()
+                .map(|(r, _)| r)
+                .filter(|r| msk.secrets.contains_key(r))
+                .cloned(),
+        )
+        .collect::<Result<RevisionVec<Right, RightSecretKey>, Error>>()?
     };
 
     let signature = sign(msk, &new_id, &new_rights)?;
